@@ -102,8 +102,9 @@ pub fn snapshot(base: &str) -> MResult<Snap> {
             size: if st.is_dir() { 0 } else { st.size }, body, ino: st.ino, dev: st.dev,
         });
         if st.is_dir() {
-            let rd = match std::fs::read_dir(&full) { Ok(r) => r, Err(_) => return Ok(()) };
-            let mut names: Vec<String> = rd.filter_map(|e| e.ok()).map(|e| e.file_name().to_string_lossy().into_owned()).collect();
+            let rd = match std::fs::read_dir(crate::sys::os(&full)) { Ok(r) => r, Err(_) => return Ok(()) };
+            // names are kept byte-exact (invalid UTF-8 as private-use characters), never lossily
+            let mut names: Vec<String> = rd.filter_map(|e| e.ok()).map(|e| proto::enc_bytes(std::os::unix::ffi::OsStrExt::as_bytes(e.file_name().as_os_str()))).collect();
             names.sort();
             for n in names {
                 let r = if rel.is_empty() { n } else { format!("{}/{}", rel, n) };
